@@ -766,10 +766,16 @@ def run_unused_ignore_predicate_agrees(chk: Check, ix) -> None:
             if isinstance(x, ast.Attribute) and norm(x.value) == "self.options":
                 out.add(x.attr)
         return out
-    first_if = next((s_ for s_ in a.node.body if isinstance(s_, ast.If)), None)
-    if first_if is None:
-        raise AnalysisError("generate_unused_ignore_notes: no guarding `if` found")
-    want = inputs(first_if.test)
+    from ..cfg import branch_conditions
+    gen = [c for c in ast.walk(a.node) if isinstance(c, ast.Call) and call_name(c) == "generate_unused_ignore_errors"]
+    if not gen:
+        raise AnalysisError("generate_unused_ignore_notes: call of generate_unused_ignore_errors not found")
+    par_a = a.module.parents()
+    st_ = gen[0]
+    while not isinstance(st_, ast.stmt):
+        st_ = par_a[st_]
+    pos_, neg_ = branch_conditions(par_a, a.node, st_, early_exits=True)
+    want = set().union(*[inputs(t) for t in pos_ + neg_]) if pos_ or neg_ else set()
     if len(want) < 3:
         raise AnalysisError(f"generate_unused_ignore_notes: guard reads only {sorted(want)}")
     calls = [c for c in ast.walk(b.node) if isinstance(c, ast.Call) and call_name(c) == "generate_ignore_without_code_errors"]
